@@ -4,9 +4,10 @@
      components of its state (attributes, explicit-None markers) stay as they were — for one assignment
      (immutable_setattr_u), for the effect list translated from the source (generated_immutable_options) and for
      every finite history (immutable_history);
-   - an immutable field that holds a value is left as it was by every assignment to it EXCEPT the one path on which
-     __setattr__ never reaches Field.__set__: None under _enable_undefined_value to a non-required field
-     (immutable_field_setattr), and on that path the marker IS added (none_marker_path_changes): the hole. *)
+   - an immutable field that holds a value is left as it was by EVERY assignment to it (immutable_field_setattr),
+     also on the path on which __setattr__ never reaches Field.__set__ -- None under _enable_undefined_value to a
+     non-required field: that branch tests the field's immutability itself (repair of finding F23); for a field that
+     is not immutable, or holds no value, the marker is added on that path (none_marker_path_changes). *)
 From Coq Require Import ZArith NArith String List Bool Lia.
 Import ListNotations.
 From TP Require Import Base.PyVal Base.PyOps Base.PyOps2 Base.PyObj Fields.FieldAst Fields.SetChain Fields.Doc
@@ -33,7 +34,7 @@ Section Options.
 
   Theorem generated_immutable_options : forall c u st n v,
       c_immutable c = true -> ordinary_name n = true ->
-      run_decision c true st n (Structure__setattr_nf (undef_heap c u true) (PStr n) v) = (st, Raised ValueError).
+      run_decision c true st n (Structure__setattr_nf (undef_heap c u true (u_attrs st)) (PStr n) v) = (st, Raised ValueError).
   Proof.
     intros c u st n v Hc Hn. rewrite generated_setattr_nf by assumption.
     exact (immutable_setattr_u c u st n v Hc).
@@ -52,31 +53,29 @@ Section Options.
   (* ---------------------------------------------------------------- an immutable field inside any class *)
   Theorem immutable_field_setattr : forall c u inst st n v fd,
       find_field (c_fields c) n = Some fd -> fd_immutable fd = true -> alist_has (u_attrs st) n = true ->
-      none_marker_path c u n v = false ->
       fst (setattr_u c u inst st n v) = st.
   Proof.
-    intros c u inst st n v fd Hf Hi Hh Hp.
+    intros c u inst st n v fd Hf Hi Hh.
     assert (Hin : str_in n (field_names c) = true) by (rewrite in_field_names, Hf; reflexivity).
-    unfold none_marker_path in Hp. rewrite Hin, andb_true_r in Hp.
-    unfold NoneFields.setattr_u, setattr_nf_decision. rewrite Hin.
+    assert (Hfi : field_immutable c n = true) by (unfold field_immutable; rewrite Hf; exact Hi).
+    unfold NoneFields.setattr_u, setattr_nf_decision. rewrite Hin, Hh, Hfi.
     destruct (c_immutable c && inst); [reflexivity|].
-    rewrite orb_true_r. cbn [negb].
+    rewrite orb_true_r. cbn [negb andb].
     destruct ((c_ignore_none c || u) && is_none_val v && negb (is_required c n)) eqn:Hg.
-    - assert (Hu : u = false).
-      { destruct u; [|reflexivity]. rewrite orb_true_r in Hg. cbn [andb] in Hg, Hp. rewrite Hg in Hp. discriminate. }
-      subst u. cbn [andb]. cbn [NoneFields.run_decision run_nf fst]. reflexivity.
+    - destruct u; cbn [NoneFields.run_decision run_nf fst]; reflexivity.
     - cbn [NoneFields.run_decision run_nf]. unfold nf_hand, nf_chain. rewrite Hf.
       destruct (vset re_match e (fd_field fd) v) as [nf|x]; [rewrite Hi, Hh; cbn [andb]|]; cbn [fst]; apply eta.
   Qed.
 
   Theorem none_marker_path_changes : forall c u inst st n v,
       (c_immutable c && inst) = false -> none_marker_path c u n v = true -> str_in n (u_none st) = false ->
+      (alist_has (u_attrs st) n && field_immutable c n) = false ->
       setattr_u c u inst st n v = ({| u_attrs := u_attrs st; u_none := n :: u_none st |}, Done).
   Proof.
-    intros c u inst st n v Hc Hp Hn. unfold none_marker_path in Hp.
+    intros c u inst st n v Hc Hp Hn Hfree. unfold none_marker_path in Hp.
     apply andb_true_iff in Hp. destruct Hp as [Hp Hin]. apply andb_true_iff in Hp. destruct Hp as [Hp Hr].
     apply andb_true_iff in Hp. destruct Hp as [Hu Hv]. subst u.
-    unfold NoneFields.setattr_u, setattr_nf_decision. rewrite Hc, Hin, Hv, Hr, !orb_true_r. cbn [negb andb].
+    unfold NoneFields.setattr_u, setattr_nf_decision. rewrite Hc, Hin, Hv, Hr, Hfree, !orb_true_r. cbn [negb andb].
     cbn [NoneFields.run_decision run_nf]. unfold nf_add. rewrite Hn. reflexivity.
   Qed.
 
@@ -124,7 +123,8 @@ Section Options.
     destruct (c_immutable c && inst); [reflexivity|].
     destruct (negb (c_additional c || str_in m (field_names c))); [reflexivity|].
     destruct ((c_ignore_none c || u) && is_none_val v && negb (is_required c m)).
-    - destruct (str_in m (field_names c) && u); cbn [NoneFields.run_decision run_nf fst]; [|reflexivity].
+    - destruct (str_in m (field_names c) && u); [destruct (alist_has (u_attrs st) m && field_immutable c m)|];
+        cbn [NoneFields.run_decision run_nf fst]; [reflexivity| |reflexivity].
       unfold field_view. cbn [u_attrs u_none]. rewrite str_in_add by exact Hne'. reflexivity.
     - cbn [NoneFields.run_decision run_nf].
       pose proof (nf_hand_frame c inst (u_attrs st) m v n Hne) as Hf.
@@ -134,24 +134,20 @@ Section Options.
       + cbn [fst]. unfold field_view. cbn [u_attrs u_none]. rewrite Hf. reflexivity.
   Qed.
 
-  (* every finite history of assignments (to any keys, any values) that avoids the one unguarded path leaves what
-     the client sees of an immutable field holding a value — its attribute and its None marker — as it was *)
-  Definition avoids_marker_path (c : classdef) (u : bool) (n : pystr) (ops : list (pystr * pyval)) : bool :=
-    forallb (fun mv => negb (pystr_eqb (fst mv) n && none_marker_path c u n (snd mv))) ops.
-
+  (* EVERY finite history of assignments (to any keys, any values, None under _enable_undefined_value included)
+     leaves what the client sees of an immutable field holding a value — its attribute and its None marker — as
+     it was *)
   Theorem immutable_field_history : forall c u fd n ops st,
       find_field (c_fields c) n = Some fd -> fd_immutable fd = true -> alist_has (u_attrs st) n = true ->
-      avoids_marker_path c u n ops = true ->
       field_view (run_sets c u st ops) n = field_view st n.
   Proof.
-    intros c u fd n ops. induction ops as [|[m v] t IH]; intros st Hf Hi Hh Hops; [reflexivity|].
-    unfold avoids_marker_path in Hops. cbn [forallb fst snd] in Hops. apply andb_true_iff in Hops.
-    destruct Hops as [Hop Ht]. cbn [ImmutableOptions.run_sets].
+    intros c u fd n ops. induction ops as [|[m v] t IH]; intros st Hf Hi Hh; [reflexivity|].
+    cbn [ImmutableOptions.run_sets].
     destruct (pystr_eqb m n) eqn:Hmn.
-    - apply pystr_eqb_spec in Hmn. subst m. cbn [andb] in Hop. apply negb_true_iff in Hop.
-      rewrite (immutable_field_setattr c u true st n v fd Hf Hi Hh Hop). apply IH; assumption.
+    - apply pystr_eqb_spec in Hmn. subst m.
+      rewrite (immutable_field_setattr c u true st n v fd Hf Hi Hh). apply IH; assumption.
     - pose proof (setattr_u_frame c u true st m v n Hmn) as Hfr.
-      rewrite IH; [exact Hfr|exact Hf|exact Hi| |exact Ht].
+      rewrite IH; [exact Hfr|exact Hf|exact Hi|].
       unfold field_view in Hfr. injection Hfr as Hg _. unfold alist_has in *. rewrite Hg. exact Hh.
   Qed.
 End Options.
